@@ -15,9 +15,9 @@ Arguments N.land : simpl never.
 
 (* ------------------------------------------------------------------ the loop is the iteration of loop_step *)
 
-Lemma session_loop_step k tee c m data istee :
+Lemma session_loop_step k tee c m data istee n :
   session_loop (S k) tee c m data istee =
-  match loop_step tee c (mkL m data istee) with
+  match loop_step tee c (mkL m data istee n) with
   | Done r => r
   | Running l => session_loop k tee c (l_m l) (l_data l) (l_istee l)
   end.
@@ -60,15 +60,15 @@ Proof.
   intro H. remember (Done r) as p eqn:Ep. revert Ep.
   induction H as [l1|l1 r1 Hs|l1 l2 p Hs Hr IH]; intro Ep.
   - discriminate.
-  - inversion Ep; subst. exists 1. destruct l1 as [m data istee]. cbn [l_m l_data l_istee]. rewrite session_loop_step, Hs.
+  - inversion Ep; subst. exists 1. destruct l1 as [m data istee n]. cbn [l_m l_data l_istee]. rewrite (session_loop_step _ _ _ _ _ _ n), Hs.
     split; [reflexivity|]. eapply loop_step_done_class; exact Hs.
-  - destruct (IH Ep) as (k & Hk & Hc). exists (S k). destruct l1 as [m data istee]. cbn [l_m l_data l_istee].
-    rewrite session_loop_step, Hs. auto.
+  - destruct (IH Ep) as (k & Hk & Hc). exists (S k). destruct l1 as [m data istee n]. cbn [l_m l_data l_istee].
+    rewrite (session_loop_step _ _ _ _ _ _ n), Hs. auto.
 Qed.
 
 (* a finished session has the result of the session run alone *)
 Lemma reach_done_run tee c fv bits clear tls outs choices r :
-  reach tee c (mkL (init_state c fv bits clear tls outs choices) None false) (Done r) ->
+  reach tee c (mkL (init_state c fv bits clear tls outs choices) None false 0) (Done r) ->
   r = run tee c fv bits clear tls outs choices.
 Proof.
   intro H. destruct (reach_done_loop _ _ _ _ H) as (k & Hk & Hc). cbn [l_m l_data l_istee] in Hk.
@@ -99,25 +99,49 @@ Qed.
 Lemma set_fv_same fv m : m_fv m = fv -> set_fv fv m = m.
 Proof. destruct m; cbn. intro H; subst. reflexivity. Qed.
 
+(* Whether the features list a session is about to read is its first one is a
+   matter of that session's own history: the `first` argument of its next
+   negotiateFeatures call is true exactly when it has made no such call yet.
+   (negotiatorState travels through the `data` value of the session; nothing
+   about it is captured by the Negotiator value.) *)
+Definition firstinv (p : progress) : Prop :=
+  match p with
+  | Running l => next_first l = Nat.eqb (l_calls l) 0
+  | Done _ => True
+  end.
+
+Lemma loop_step_first tee c l : firstinv (Running l) -> firstinv (loop_step tee c l).
+Proof.
+  unfold firstinv, next_first, loop_step. intro H.
+  destruct (has (m_bits (l_m l)) st_Ready); [exact I|].
+  destruct (tee && negb (l_istee l)); [cbn [l_data l_calls ns_of]; exact H|].
+  rewrite negotiator_body_unfold.
+  destruct (headers c (l_m l) (ns_of (l_data l))) as [m1 [u|e|]]; try exact I.
+  destruct (negotiate_features c m1 (ns_first (ns_of (l_data l)))) as [m2 [[mask restart]|e|]]; try exact I.
+  reflexivity.
+Qed.
+
 (* session s of the schedule corresponds to the session description s0 *)
 Definition sinv (fv : option bytes) (s0 : sess) (s : isess) : Prop :=
   is_tee s = s_tee s0 /\ is_cfg s = s_cfg s0 /\
   fvinv (s_cfg s0) fv (pstate (is_prog s)) /\
   reach (s_tee s0) (s_cfg s0)
-        (mkL (init_state (s_cfg s0) fv (s_bits s0) (s_in s0) (s_tls s0) (s_outs s0) (s_choices s0)) None false)
-        (is_prog s).
+        (mkL (init_state (s_cfg s0) fv (s_bits s0) (s_in s0) (s_tls s0) (s_outs s0) (s_choices s0)) None false 0)
+        (is_prog s) /\
+  firstinv (is_prog s).
 
 Lemma step_sess_inv fv s0 s : sinv fv s0 s ->
   fst (step_sess fv s) = fv /\ sinv fv s0 (snd (step_sess fv s)).
 Proof.
-  intros (Ht & Hc & Hf & Hr). unfold step_sess. destruct (is_prog s) as [l|r] eqn:Ep.
+  intros (Ht & Hc & Hf & Hr & Hfi). unfold step_sess. destruct (is_prog s) as [l|r] eqn:Ep.
   - cbn [pstate] in Hf. destruct Hf as (Hfv & Hn).
-    assert (mkL (set_fv fv (l_m l)) (l_data l) (l_istee l) = l) as El
+    assert (mkL (set_fv fv (l_m l)) (l_data l) (l_istee l) (l_calls l) = l) as El
       by (rewrite (set_fv_same _ _ Hfv); destruct l; reflexivity).
     rewrite El, Ht, Hc. cbn [fst snd].
     pose proof (loop_step_fvinv (s_cfg s0) fv (s_tee s0) l (conj Hfv Hn)) as Hf2.
     split; [exact (proj1 Hf2)|]. unfold sinv. cbn [is_tee is_cfg is_prog].
-    split; [reflexivity|]. split; [reflexivity|]. split; [exact Hf2|]. apply reach_snoc. exact Hr.
+    split; [reflexivity|]. split; [reflexivity|]. split; [exact Hf2|]. split; [apply reach_snoc; exact Hr|].
+    apply loop_step_first. exact Hfi.
   - cbn [fst snd]. split; [reflexivity|]. unfold sinv. rewrite Ep. auto.
 Qed.
 
@@ -146,8 +170,8 @@ Lemma start_inv fv : forall ss0, Forall2 (sinv fv) ss0 (map (start_sess fv) ss0)
 Proof.
   induction ss0 as [|s0 ss0 IH]; cbn; constructor; [|exact IH].
   unfold sinv, start_sess. cbn [is_tee is_cfg is_prog pstate l_m].
-  split; [reflexivity|]. split; [reflexivity|]. split; [|apply reach_here].
-  unfold fvinv, init_state; cbn. auto.
+  split; [reflexivity|]. split; [reflexivity|]. split; [unfold fvinv, init_state; cbn; auto|].
+  split; [apply reach_here|reflexivity].
 Qed.
 
 Lemma Forall2_imp {A B} (P Q : A -> B -> Prop) l l' :
@@ -163,11 +187,12 @@ Lemma interleaved_sessions sched fv ss0 :
   fst out = fv /\
   Forall2 (fun s0 s =>
              Forall (fun n => n = name_for (s_cfg s0) fv) (server_names (m_tr (pstate (is_prog s)))) /\
-             (forall r, is_prog s = Done r -> r = run_sess fv s0))
+             (forall r, is_prog s = Done r -> r = run_sess fv s0) /\
+             firstinv (is_prog s))
           ss0 (snd out).
 Proof.
   intro out. destruct (sched_run_inv sched fv ss0 _ (start_inv fv ss0)) as (H1 & H2). fold out in H1, H2.
   split; [exact H1|]. eapply Forall2_imp; [|exact H2].
-  intros s0 s (Ht & Hc & (Hfv & Hn) & Hr). split; [exact Hn|].
+  intros s0 s (Ht & Hc & (Hfv & Hn) & Hr & Hfi). split; [exact Hn|]. split; [|exact Hfi].
   intros r Hd. rewrite Hd in Hr. unfold run_sess. apply reach_done_run. exact Hr.
 Qed.
